@@ -16,6 +16,8 @@ def main(pid, tier, repo=None):
         recursion.run(ctx, LIB_CRATES)
         enumarm.run(ctx, LIB_CRATES)
         fixguards.run(ctx, pid)
+        from . import apiunwrap
+        apiunwrap.run(ctx)
         from . import c05 as _c05, c06 as _c06
         _c05.rule_alpha_region(ctx)      # D43 / D48 panicked (row index out of range) as well as mis-blending
         _c06.rule_base_region(ctx)       # D41 / D47: out-of-range subgrid of the base planes
